@@ -49,7 +49,13 @@ pub fn dispatch(op: &str, a: &[Arg]) -> Option<String> {
             }
         }
         "dos_try_from" => {
-            let odt = time::OffsetDateTime::from_unix_timestamp(a[0].n() as i64).unwrap();
+            let mut odt = time::OffsetDateTime::from_unix_timestamp(a[0].n() as i64).unwrap();
+            // optional: the same instant seen in another UTC offset (seconds east, seconds west): the conversion takes the
+            // calendar fields of the value as given, in its own offset
+            if a.len() >= 3 {
+                let off = a[1].n() as i32 - a[2].n() as i32;
+                odt = odt.to_offset(time::UtcOffset::from_whole_seconds(off).unwrap());
+            }
             match DateTime::try_from(odt) {
                 Ok(dt) => dt_obs(&dt),
                 Err(_) => "NONE".into(),
